@@ -31,16 +31,51 @@ S = ls.sympy
 Tt = lt.sympy
 
 
+def to_pair(x):
+    """exact value of a constant sympy expression built from rationals, I, +, *, integer powers
+    as a pair of Fractions (re, im); raises ValueError otherwise"""
+    from fractions import Fraction
+    if x.is_Rational:
+        return (Fraction(int(x.p), int(x.q)), Fraction(0))
+    if x == I:
+        return (Fraction(0), Fraction(1))
+    if x.is_Add:
+        re, im = Fraction(0), Fraction(0)
+        for a in x.args:
+            r, i = to_pair(a)
+            re += r
+            im += i
+        return (re, im)
+    if x.is_Mul:
+        re, im = Fraction(1), Fraction(0)
+        for a in x.args:
+            r, i = to_pair(a)
+            re, im = re * r - im * i, re * i + im * r
+        return (re, im)
+    if x.is_Pow and x.exp.is_Integer:
+        r, i = to_pair(x.base)
+        n = int(x.exp)
+        if n < 0:
+            d = r * r + i * i
+            if d == 0:
+                raise ValueError('division by zero')
+            r, i = r / d, -i / d
+            n = -n
+        re, im = Fraction(1), Fraction(0)
+        for _ in range(n):
+            re, im = re * r - im * i, re * i + im * r
+        return (re, im)
+    raise ValueError('not a Gaussian rational: %s' % str(x)[:80])
+
+
 def gauss(x):
-    """sympy number -> [re, im] strings, or raise"""
-    x = sym.nsimplify(sym.expand(sym.sympify(x)), rational=False)
-    re, im = sym.expand(x).as_real_imag()
-    re, im = sym.nsimplify(re), sym.nsimplify(im)
-    if not (re.is_Rational and im.is_Rational):
-        re, im = sym.simplify(re), sym.simplify(im)
-    if not (re.is_Rational and im.is_Rational):
-        raise ValueError('not a Gaussian rational: %s' % x)
-    return ['%d/%d' % (re.p, re.q), '%d/%d' % (im.p, im.q)]
+    """sympy number -> [re, im] strings ("p/q"), or raise; exact, never via floats"""
+    x = sym.sympify(x)
+    try:
+        re, im = to_pair(x)
+    except ValueError:
+        re, im = to_pair(sym.expand(sym.simplify(x)))
+    return ['%d/%d' % (re.numerator, re.denominator), '%d/%d' % (im.numerator, im.denominator)]
 
 
 def ungauss(g):
@@ -95,7 +130,8 @@ def parse_time(e):
         e = val
     if e.has(sym.Piecewise) or e.has(sym.Integral) or e.has(sym.Sum) or e.has(sym.nan) or e.has(sym.zoo) or e.has(sym.oo):
         raise Unparsed('unsupported construct')
-    e = e.rewrite(sym.exp)
+    for fn in (sym.cos, sym.sin, sym.cosh, sym.sinh, sym.tanh):
+        e = e.rewrite(fn, sym.exp)
     e = sym.expand(e)
     reg = {}
     sing = {}
@@ -157,17 +193,16 @@ def parse_time(e):
             reg[key] = reg.get(key, 0) + c
     out_reg = []
     for (T, n, pg, step), c in sorted(reg.items(), key=lambda kv: str(kv[0])):
-        c = sym.simplify(sym.expand(c))
-        if c == 0:
+        gc = gauss(c * sym.factorial(n))     # Lcapy writes c * t^n e^{pt}; the normal form uses t^n/n!
+        if gc == ['0/1', '0/1']:
             continue
-        # Lcapy writes c * t^n e^{pt}; the normal form uses t^n/n!
-        out_reg.append([T, n, list(pg), gauss(c * sym.factorial(n)), step])
+        out_reg.append([T, n, list(pg), gc, step])
     out_sing = []
     for (T, k), c in sorted(sing.items(), key=lambda kv: str(kv[0])):
-        c = sym.simplify(sym.expand(c))
-        if c == 0:
+        gc = gauss(c)
+        if gc == ['0/1', '0/1']:
             continue
-        out_sing.append([T, k, gauss(c)])
+        out_sing.append([T, k, gc])
     return {'cond': cond, 'reg': out_reg, 'sing': out_sing}
 
 
@@ -241,7 +276,50 @@ def limited(seconds, fn, *a):
         signal.signal(signal.SIGALRM, old)
 
 
+def classify_undef(e):
+    """structure of the time-domain result for  <factor> * V(s)"""
+    t = Tt
+    if isinstance(e, sym.Piecewise):
+        e = e.args[0][0]
+    ders = list(e.atoms(sym.Derivative))
+    ints = list(e.atoms(sym.Integral))
+    if ints:
+        if len(ints) != 1:
+            return {'ukind': 'other', 'text': str(e)[:200]}
+        it = ints[0]
+        (tau, lo, hi) = it.limits[0]
+        if lo != 0:
+            return {'ukind': 'other', 'text': str(e)[:200]}
+        f = it.function
+        if isinstance(f, sym.core.function.AppliedUndef) and f.args == (tau,) and hi == t:
+            return {'ukind': 'int'}
+        return {'ukind': 'conv', 'causal_limits': bool(hi == t), 'upper': str(hi)}
+    top = [d for d in ders if isinstance(d.expr, sym.core.function.AppliedUndef) and not d.has(sym.Subs)]
+    if top:
+        n = max(d.derivative_count for d in top)
+        return {'ukind': 'deriv', 'n': int(n), 'ics': bool(e.has(sym.DiracDelta))}
+    if e.has(sym.DiracDelta):
+        return {'ukind': 'other', 'text': str(e)[:200]}
+    return {'ukind': 'func'}
+
+
+def run_undef(case):
+    opts = {}
+    for k, v in case['opts']:
+        opts[k] = v
+    ILTR.clear_cache()
+    X = lcapy.expr(case['undef'])
+    h = X(lt, **opts)
+    out = classify_undef(h.sympy)
+    out['expr'] = case['undef']
+    h2 = X(lt, **opts)
+    out['same'] = bool(h2.sympy == h.sympy)
+    return out
+
+
 def run(case):
+    if 'undef' in case:
+        return run_undef(case)
     damping = case.get('damping')
     opts = {}
     for k, v in case['opts']:
@@ -249,10 +327,19 @@ def run(case):
     if damping is not None:
         opts['damping'] = damping
     e = 0
-    for tm in case['terms']:
-        e = e + term_expr(tm)
+    if case.get('nested'):
+        # exp(-T0 s) * (R_0 + exp(-(T_1 - T0) s) R_1 + ...): a delay in front of a sum containing delays
+        T0 = min(Rational(tm['T']) for tm in case['terms'])
+        inner = 0
+        for tm in case['terms']:
+            t2 = dict(tm)
+            t2['T'] = str(Rational(tm['T']) - T0)
+            inner = inner + term_expr(t2)
+        e = sym.Mul(sym.exp(-T0 * S), inner, evaluate=False)
+    else:
+        for tm in case['terms']:
+            e = e + term_expr(tm)
     e = Rational(case.get('const', '1/1')) * e
-    X = lcapy.expr(e) if not hasattr(e, 'sympy') else e
     X = lcapy.LaplaceDomainExpression(e)
     out = {'expr': str(e)[:300]}
     ILTR.clear_cache()
